@@ -213,7 +213,7 @@ def extra(tier, seed):
     import glob
 
     out = {"failures": [], "evaluations": 0, "nontrivial": [], "labels": {}, "samples": [], "coverage": {}}
-    files = sorted(glob.glob("/repo/tests/odefiles/*.ode"))
+    files = sorted(glob.glob(B.REPO + "/tests/odefiles/*.ode"))
     if tier == "quick":
         files = [f for f in files if os.path.getsize(f) < 12000]
     from multiprocessing import get_context
